@@ -702,6 +702,8 @@ def cross_projects(ctx):
 
 
 def run(ctx):
+    from checks import isolate
+    isolate.enter(ctx)
     bindir = core.cargo_build("h_plurals")
     ok, problems = core.coq_audit(ctx, PROPS, THEOREMS)
     exe = os.path.join(bindir, "h_plurals")
@@ -947,6 +949,8 @@ def run(ctx):
 
 
 def replay(ctx, path):
+    from checks import isolate
+    isolate.enter(ctx)
     """re-runs the stored failing input on the implementation (harness) and on the model (coqc) and prints both with the verdict"""
     obj = json.load(open(path))
     fi = obj.get("failing_input") or {}
